@@ -40,6 +40,12 @@ KERNELS = {
     "generate_ordered_map_to_left_remaining": {"owner": "C03", "mutated": [1, 2]},
     "generate_ordered_map_to_left_right_unique_remaining": {"owner": "C03", "mutated": [1]},
     "generate_ordered_map_to_left_partial": {"owner": "C03", "mutated": [4, 5]},
+    "generate_ordered_map_to_left_left_unique_partial": {"owner": "C03", "mutated": [3, 4]},
+    "generate_ordered_map_to_left_right_unique_partial": {"owner": "C03", "mutated": [3]},
+    "generate_ordered_map_to_inner_partial": {"owner": "C03", "mutated": [4, 5]},
+    "generate_ordered_map_to_inner_left_unique_partial": {"owner": "C03", "mutated": [4, 5]},
+    "generate_ordered_map_to_inner_right_unique_partial": {"owner": "C03", "mutated": [4, 5]},
+    "generate_ordered_map_to_inner_both_unique_partial": {"owner": "C03", "mutated": [4, 5]},
 }
 C08_NOSRC = ("apply_spans_count", "apply_spans_index_of_first", "apply_spans_index_of_last")
 
@@ -280,7 +286,7 @@ def random_c03(rng, n_cases):
         inv = rng.choice([-1, 2147483647, 4611686018427387904])
         nl, nr = rng.randrange(0, 12), rng.randrange(0, 12)
         cap = rng.choice([1, 2, 3, 5, 16])
-        what = t % 4
+        what = t % 10
         if what == 0:
             left, right = _sorted_keys(rng, nl, True), _sorted_keys(rng, nr, True)
             i, j = rng.randrange(0, nl + 1), rng.randrange(0, nr + 1)
@@ -298,7 +304,7 @@ def random_c03(rng, n_cases):
             out.append(gcase("generate_ordered_map_to_left_right_unique_remaining",
                              [I(i_max), arr([8] * cap), I(rng.randrange(0, i_max + 2)), I(rng.randrange(0, cap + 1)), I(inv)],
                              fuel=i_max + 1, _from="random"))
-        else:
+        elif what in (3, 4):
             left, right = _sorted_keys(rng, nl, False), _sorted_keys(rng, nr, False)
             cap = rng.choice([1, 2, 3, 5, 16, 64])
             i, j = (0, 0) if rng.random() < 0.6 else (rng.randrange(0, nl + 1), rng.randrange(0, nr + 1))
@@ -307,10 +313,52 @@ def random_c03(rng, n_cases):
                 i -= 1
             while 0 < j < nr and right[j - 1] == right[j]:
                 j -= 1
-            out.append(gcase("generate_ordered_map_to_left_partial",
-                             [arr(left), I(nl), arr(right), I(nr), arr([7] * cap), arr([8] * cap), I(inv), I(rng.randrange(0, 50)),
-                              I(rng.randrange(0, 50)), I(i), I(j), I(0), I(0), I(0), I(-1), I(-1), {"bool": False}],
-                             fuel=4 * (nl + nr + cap) + 16, _from="random"))
+            fsm = [I(i), I(j), I(0), I(0), I(0), I(-1), I(-1), {"bool": False}]
+            if what == 3:
+                out.append(gcase("generate_ordered_map_to_left_partial",
+                                 [arr(left), I(nl), arr(right), I(nr), arr([7] * cap), arr([8] * cap), I(inv),
+                                  I(rng.randrange(0, 50)), I(rng.randrange(0, 50))] + fsm,
+                                 fuel=4 * (nl + nr + cap) + 16, _from="random"))
+            else:
+                out.append(gcase("generate_ordered_map_to_inner_partial",
+                                 [arr(left), I(nl), arr(right), I(nr), arr([7] * cap), arr([8] * cap),
+                                  I(rng.randrange(0, 50)), I(rng.randrange(0, 50))] + fsm,
+                                 fuel=4 * (nl + nr + cap) + 16, _from="random"))
+        else:
+            # the uniqueness-specialised kernels, as the streamed drivers call them: i_max / j_max are the logical (trimmed)
+            # chunk lengths, at most the window lengths; one call in ten passes a bound beyond its window (`_unsafe`)
+            lu = what in (5, 7)                        # left keys unique
+            ru = what in (6, 8)                        # right keys unique
+            bu = what == 9
+            left = _sorted_keys(rng, nl, lu or bu)
+            right = _sorted_keys(rng, nr, ru or bu)
+            i_max = nl if rng.random() < 0.6 else rng.randrange(0, nl + 1)
+            j_max = nr if rng.random() < 0.6 else rng.randrange(0, nr + 1)
+            unsafe = False
+            if rng.random() < 0.1:
+                if rng.random() < 0.5:
+                    i_max = nl + 1
+                else:
+                    j_max = nr + 1
+                unsafe = True
+            i, j = rng.randrange(0, nl + 1), rng.randrange(0, nr + 1)
+            r = rng.randrange(0, cap + 1) if rng.random() < 0.3 else 0
+            i_off, j_off = rng.randrange(0, 100), rng.randrange(0, 100)
+            fuel = 2 * (2 * nl + 2 * nr + cap) + 8
+            if what == 5:
+                out.append(gcase("generate_ordered_map_to_left_left_unique_partial",
+                                 [arr(left), arr(right), I(j_max), arr([7] * cap), arr([8] * cap), I(inv), I(i_off), I(j_off),
+                                  I(i), I(j), I(r)], unsafe=unsafe and j_max > nr, fuel=fuel, _from="random"))
+            elif what == 6:
+                out.append(gcase("generate_ordered_map_to_left_right_unique_partial",
+                                 [arr(left), I(i_max), arr(right), arr([8] * cap), I(inv), I(j_off), I(i), I(j), I(r)],
+                                 unsafe=unsafe and i_max > nl, fuel=fuel, _from="random"))
+            else:
+                k = {7: "generate_ordered_map_to_inner_left_unique_partial",
+                     8: "generate_ordered_map_to_inner_right_unique_partial",
+                     9: "generate_ordered_map_to_inner_both_unique_partial"}[what]
+                out.append(gcase(k, [arr(left), I(i_max), arr(right), I(j_max), arr([7] * cap), arr([8] * cap), I(i_off),
+                                     I(j_off), I(i), I(j), I(r)], unsafe=unsafe, fuel=fuel, _from="random"))
     return out
 
 
@@ -321,7 +369,9 @@ RANDOM = {"C08": random_c08, "C09": random_c09, "C04": random_c04, "C03": random
 def extra_cases(owner, cases, tier, rng):
     owner = owner.upper()
     nd = QUICK_DERIVED if tier == "quick" else 20 * QUICK_DERIVED
-    nr = QUICK_RANDOM if tier == "quick" else 40 * QUICK_RANDOM
+    nk = sum(1 for v in KERNELS.values() if v["owner"] == owner)
+    nr = max(QUICK_RANDOM, 54 * nk)                 # at least 54 seeded direct calls per translated kernel of the owner
+    nr = nr if tier == "quick" else 40 * nr
     derived = []
     seen = set()
     for c in cases:
